@@ -1086,7 +1086,11 @@ bool evaluate_impl(const void *context, const GraphView &graph,
   // per-cycle setup (next_scheduled accumulation / push-source pass). A
   // completed cycle resets the cursor to 0. (A cursor of 0 or the initial
   // invalid sentinel means "fresh".)
+  // A cycle abandoned by an exception also leaves the cursor on the failing
+  // node (failed_node() reports it), but it is not a pause: the next evaluate
+  // must start a fresh cycle instead of skipping the nodes before the cursor.
   const bool resuming =
+      !state.evaluation_failed &&
       state.evaluation_cursor != 0 && state.evaluation_cursor != invalid_cursor;
 
   state.evaluation_time = evaluation_time;
@@ -1102,6 +1106,22 @@ bool evaluate_impl(const void *context, const GraphView &graph,
   auto after_eval_notify = make_scope_exit<true>([&] {
     if (!paused) {
       state.lifecycle_observers->notify_after_graph_evaluation(graph);
+    }
+  });
+
+  // The scan folds each node's future schedule slot into next_scheduled_time
+  // as it passes it. When an exception abandons the cycle, the nodes the scan
+  // did not reach must still be folded, or an owner that re-arms itself from
+  // next_scheduled_time (a nested graph node catching the error) never wakes
+  // the graph for wake-ups that were already pending on them.
+  auto fold_unscanned_schedules = UnwindCleanupGuard([&] {
+    for (std::size_t index = state.evaluation_cursor + 1;
+         index < runtime.layout.node_count; ++index) {
+      const DateTime scheduled = graph_schedule(runtime, graph.data(), index);
+      if (scheduled > evaluation_time &&
+          scheduled < state.next_scheduled_time) {
+        state.next_scheduled_time = scheduled;
+      }
     }
   });
 
